@@ -59,7 +59,7 @@ def run_front(ck: Check, cases: List[Case], tag: str) -> List[Dict[str, Any]]:
     jobs = []
     for i, c in enumerate(cases):
         jobs.append(dict(id=i, dir=os.path.join(ck.dir, f"{tag}{i}"), files=c.texts, root=c.root, trad=c.trad,
-                         cli=c.cli))
+                         cli=c.cli, lang="c" if c.trad else "py"))   # -O exists for C only
     return run_workers("run_front.py", jobs, chunk=max(4, len(jobs) // 32))
 
 
